@@ -272,8 +272,9 @@ Fixpoint parse_frames (fuel : nat) (s : list N) : option (list (list N)) :=
   match s with
   | [] => Some []
   | a :: b :: c :: d :: r =>
-      let n := Z.to_nat (un_le32 a b c d) in
-      if (n <=? length r)%nat then
+      let z := un_le32 a b c d in
+      if z <=? Z.of_nat (length r) then   (* compared in Z: a garbage length can be 2^32-1 *)
+        let n := Z.to_nat z in
         match fuel with
         | O => None
         | S f => match parse_frames f (drop n r) with Some l => Some (take n r :: l) | None => None end
